@@ -554,8 +554,10 @@ def run(ck: vlib.Check):
             ck.obligations.append({"name": nm, "status": "not-checked", "assumptions": None})
     # ---- 3a native tie
     grid, streams = gen_cases(ck, 12 if quick else 24, 40 if quick else 330, 60 if quick else 400)
-    big = [] if quick else [(tri(46341), 46341), (tri(46341) - 1, 46341), (tri(46342), 46342), (2 ** 31, 50000),
-                            (3221250959, 46342)]
+    # dimensions at and beyond the 16-bit / 32-bit boundaries with a packed length that is far too small: the scan rejects them after a
+    # few hundred steps (long before any int overflow), so they belong to the quick tier too
+    big = [(32768, 65536), (56107, 92682), (100000, 131072), (1, 4294967295), (5, 4294967294), (40, 65535), (0, 65536), (21, 2 ** 31)]
+    big += [] if quick else [(tri(46341), 46341), (tri(46341) - 1, 46341), (tri(46342), 46342), (2 ** 31, 50000), (3221250959, 46342)]
     model_grid = model_streams = model_maps = model_dims = None
     dim_inputs = sorted(set(list(range(0, 400)) + [tri(n) for n in range(0, 200)] + [tri(n) - 1 for n in range(1, 200)] +
                             [ck.rng.randrange(0, 2 ** 40) for _ in range(200)] + [tri(46341), tri(2 ** 20), tri(2 ** 25)]))
@@ -634,6 +636,11 @@ def run(ck: vlib.Check):
                 want = "A" if tri(d) <= f else "X"
                 if got != want:
                     ck.violation(f"C16:ctor:flat={f}:dim={d}", f"constructor({f},{d}) gave {got}, want {want}", {"flat": f, "dim": d})
+            elif f < tri(46341):
+                # the scan meets an index >= flat_size at i*(i+1)/2 >= flat_size, i <= 46341: defined behaviour, must be rejected
+                if got != "X":
+                    ck.violation(f"C16:ctor:flat={f}:dim={d}", f"constructor({f},{d}) accepted although dim(dim+1)/2 = {tri(d)} > {f}: a dimension too "
+                                 f"large for the packed length must be rejected", {"flat_size": f, "full_dim": d, "got": got, "want": "X"})
             else:
                 ck.notes.append(f"residual (dim > 46341, int overflow = UB): constructor({f},{d}) -> {got}; wrap-around model predicts "
                                 f"{'X' if f <= 3221250959 else 'unknown'}")
